@@ -7,9 +7,9 @@ import sim_common
 
 def run(tier, seed):
     chk = vlib.Check("C01", tier, seed)
-    n = 100 if tier == "quick" else 1200
+    n = 100 if tier == "quick" else 600
     flav = ("asan",) if tier == "quick" else ("asan", "asan", "asan-ndebug")
-    cases = sim_common.make_cases("C01", tier, seed, n, variants=(0,), fp_levels=(1, 2, 3, 10, 2, 10), sizes=(0, 0, 1, 0, 1) if tier == "quick" else (0, 1, 1, 2, 0), flavours=flav, stateless=9)
+    cases = sim_common.make_cases("C01", tier, seed, n, variants=(0,), fp_levels=(1, 2, 3, 10, 2, 10), sizes=(0, 0, 1, 0, 1) if tier == "quick" else (0, 1, 1, 0, 1, 2, 0, 1), flavours=flav, stateless=9)
     # a slice with every-event checkpoints, back-to-back GVT rounds and the serialized scheduler: fossil collection right behind the
     # LP's frontier, the situation in which a wrongly committed event shows up in the final state
     for i, c in enumerate(cases):
